@@ -451,6 +451,58 @@ theorem subjectString_injective (a b : Bytes × Bytes) (ha : (35 : UInt8) ∉ a.
   · have := split_at_sep 35 ao bo ar br ha hb (by simpa using h)
     simp [this.1, this.2]
 
+theorem sep_mismatch (x y : UInt8) (hxy : x ≠ y) : ∀ (a a' b b' : Bytes), x ∉ a' → y ∉ a →
+    a ++ x :: b = a' ++ y :: b' → False := by
+  intro a
+  induction a with
+  | nil =>
+    intro a' b b' h1 _ h
+    cases a' with
+    | nil => simp at h; exact hxy h.1
+    | cons c cs => simp at h; exact h1 (by simp [h.1])
+  | cons c cs ih =>
+    intro a' b b' h1 h2 h
+    cases a' with
+    | nil => simp at h; exact h2 (by simp [h.1])
+    | cons d ds =>
+      simp at h
+      exact ih ds b b' (fun m => h1 (by simp [m])) (fun m => h2 (by simp [m])) h.2
+
+/-- the three shapes of a relation reference -/
+def refKind (r : RelRef) : Nat := if r.kind = 1 then 1 else if r.kind = 2 then 2 else 0
+
+/-- **Rendering of type restrictions is injective** for type names without '#' and ':' (all valid
+type names): same rendered string ⇒ same type, same shape, and same relation for `type#relation`. -/
+theorem refString_injective (a b : RelRef) (ha1 : (35 : UInt8) ∉ a.type) (ha2 : (58 : UInt8) ∉ a.type)
+    (hb1 : (35 : UInt8) ∉ b.type) (hb2 : (58 : UInt8) ∉ b.type) (h : refString a = refString b) :
+    a.type = b.type ∧ refKind a = refKind b ∧ (refKind a = 1 → a.relation = b.relation) := by
+  unfold refString at h
+  unfold refKind
+  by_cases ka1 : a.kind = 1 <;> by_cases kb1 : b.kind = 1
+  · simp only [ka1, kb1, if_true] at h
+    have := split_at_sep 35 a.type b.type a.relation b.relation ha1 hb1 (by simpa using h)
+    simp [ka1, kb1, this.1, this.2]
+  · by_cases kb2 : b.kind = 2
+    · simp only [ka1, kb1, kb2, if_true, if_false] at h
+      exact absurd (by simpa using h) (sep_mismatch 35 58 (by decide) a.type b.type a.relation [42] hb1 ha2)
+    · simp only [ka1, kb1, kb2, if_true, if_false] at h
+      exact absurd (by rw [← h]; simp) hb1
+  · by_cases ka2 : a.kind = 2
+    · simp only [ka1, kb1, ka2, if_true, if_false] at h
+      exact absurd (by simpa using h.symm) (sep_mismatch 35 58 (by decide) b.type a.type b.relation [42] ha1 hb2)
+    · simp only [ka1, kb1, ka2, if_true, if_false] at h
+      exact absurd (by rw [h]; simp) ha1
+  · by_cases ka2 : a.kind = 2 <;> by_cases kb2 : b.kind = 2
+    · simp only [ka1, kb1, ka2, kb2, if_true, if_false] at h ⊢
+      have := List.append_cancel_right h
+      simp [this]
+    · simp only [ka1, kb1, ka2, kb2, if_true, if_false] at h
+      exact absurd (by rw [← h]; simp) hb2
+    · simp only [ka1, kb1, ka2, kb2, if_true, if_false] at h
+      exact absurd (by rw [h]; simp) ha2
+    · simp only [ka1, kb1, ka2, kb2, if_true, if_false] at h ⊢
+      simp [h]
+
 /-! ### 4c. InvariantCacheKey -/
 
 /-- **The hashed bytes determine store, model, contextual tuples and context.** -/
